@@ -8,6 +8,7 @@ package agd
 //
 //@ func (*RequestInfo).DeviceData
 //@   property C03
+//@   requires isptr(ri.DeviceResult, DeviceResultOK) ==> asptr(ri.DeviceResult, DeviceResultOK) != nil
 //@   ensures only-ok-exposes: (p != nil || d != nil) ==> isptr(ri.DeviceResult, DeviceResultOK)
 //@   ensures isptr(ri.DeviceResult, DeviceResultOK) && asptr(ri.DeviceResult, DeviceResultOK) != nil ==>
 //@             p == asptr(ri.DeviceResult, DeviceResultOK).Profile && d == asptr(ri.DeviceResult, DeviceResultOK).Device
